@@ -93,6 +93,27 @@ def translate(repo):
         out.append(f'Definition TAG_{n} : N := {tags[n]}.')
     out.append('Definition ALL_TAGS : list N := [' + '; '.join(str(tags[n]) for n in want) + '].')
 
+    # ---- the documented protocol: `uint8 tag = N;` of every descriptor struct in typedesc.rst
+    import re as _re
+    drel = 'docs/reference/reference/protocol/typedesc.rst'
+    dp = os.path.join(repo, drel)
+    need(os.path.exists(dp), f'{drel}: missing')
+    dsrc = open(dp, encoding='utf-8').read()
+    doc = {}
+    for m in _re.finditer(r'struct\s+(\w+)\s*\{[^}]*?uint8\s+tag\s*=\s*(\d+)\s*;', dsrc, _re.S):
+        doc[m.group(1)] = int(m.group(2))
+    docmap = {'SetDescriptor': 'SET', 'ScalarTypeDescriptor': 'SCALAR', 'TupleTypeDescriptor': 'TUPLE',
+              'NamedTupleTypeDescriptor': 'NAMEDTUPLE', 'ArrayTypeDescriptor': 'ARRAY',
+              'EnumerationTypeDescriptor': 'ENUM', 'RangeTypeDescriptor': 'RANGE',
+              'ObjectTypeDescriptor': 'OBJECT', 'CompoundTypeDescriptor': 'COMPOUND',
+              'ObjectShapeDescriptor': 'SHAPE', 'InputShapeDescriptor': 'INPUT_SHAPE'}
+    for dn, cnm in docmap.items():
+        need(dn in doc, f'{drel}: no `uint8 tag = N` found for struct {dn}')
+        need(doc[dn] == tags[cnm],
+             f'{rel}: DescriptorTag.{cnm} = {tags[cnm]} but the documented protocol ({drel}) says {doc[dn]}')
+    man['sources'].append({'file': drel, 'sha256': hashlib.sha256(dsrc.encode()).hexdigest(),
+                           'structs': sorted(docmap)})
+
     # ---- ShapePointerFlags (enum.auto() on an IntFlag: 1, 2, 4, ... in definition order)
     c = find_class(tree, 'ShapePointerFlags', rel)
     need(base_names(c) == ['enum.IntFlag'], f'{rel}: ShapePointerFlags bases changed')
